@@ -274,7 +274,7 @@ void execute(const Workload& w, Result& res) {
     }
 }
 
-const sim::HarnessDef def = {"C11", true, 120, generate, execute, nullptr};
+const sim::HarnessDef def = {"C11", true, 30, generate, execute, nullptr};
 
 } // namespace
 
